@@ -372,8 +372,8 @@ def rewrite_timeouts(src, lo, hi, edits, stats):
                     if a < j < b or j < a < recv_end:
                         raise LostAnchor(f"{src.path}:{src.line_of(t.start)}: R18: nested timeout scopes")
                 scopes.append((j, recv_end))
-                edits.add(toks[j - 1].start, toks[j].end, "{ __dl.enter(" + arg + "); let __sv = {", "R18", "timeout scope made explicit (enter)")
-                edits.add(toks[recv_end].end, toks[await_tok].end, "; __dl.exit(); __sv }", "R18", "timeout scope made explicit (exit)")
+                edits.add(toks[j - 1].start, toks[j].end, "({ __dl.enter(" + arg + "); let __sv = {", "R18", "timeout scope made explicit (enter)")
+                edits.add(toks[recv_end].end, toks[await_tok].end, "; __dl.exit(); __sv })", "R18", "timeout scope made explicit (exit)")
             else:
                 # single awaited call under a timeout: find the start of the postfix chain (walk back over `.ident(..)`, `?`, paths)
                 j = recv_end
